@@ -497,7 +497,105 @@ func genHTTP(r *lib.Rand) actIn {
 	a.QT = httpTopics[r.Intn(len(httpTopics))]
 	a.QC = httpChans[r.Intn(len(httpChans))]
 	a.QN = httpNodes[r.Intn(len(httpNodes))]
+	if adminRoutes[a.Path] {
+		if r.Chance(45) {
+			// names that ARE registered at this point - by the bystander, the visitor, a hostile
+			// connection that left its key behind - and the nodes the connections announced
+			a.QT = liveTopics[r.Intn(len(liveTopics))]
+			a.QC = liveChans[r.Intn(len(liveChans))]
+			a.QN = liveNodes[r.Intn(len(liveNodes))]
+		}
+	}
 	return a
+}
+
+var adminRoutes = map[string]bool{"/topic/create": true, "/topic/delete": true, "/channel/create": true, "/channel/delete": true, "/topic/tombstone": true}
+var liveTopics = []*string{sp(byTopic), sp(byTopic), sp(visTopic), sp("ht1"), sp("heph#ephemeral"), sp("veph#ephemeral")}
+var liveChans = []*string{nil, sp(byChan), sp(byEph), sp(visChan), sp("hc#ephemeral"), sp("newc")}
+var liveNodes = []*string{nil, sp("bystander:4151"), sp("h1:4151"), sp("h2:4151"), sp("h1:4152"), sp("x:1")}
+
+// adminSessions: the matrix (state of the named topic / channel) x (admin request), with
+// a bystander and a visitor connected and registered and a topic that exists only because
+// an admin request created it.  States of a topic: registered by both connections, by the
+// visitor alone, key without producers, absent; of a channel: registered, shared
+// #ephemeral, key without producers, absent (under that topic), absent.  After a deletion
+// the connections register again (the daemon never learns about it otherwise).
+func adminSessions() []sessIn {
+	const made, madeC = "made", "madec"
+	post := func(path string, t, c, nd *string) actIn {
+		return actIn{K: "http", Method: "POST", Path: path, QT: t, QC: c, QN: nd}
+	}
+	setup := func() []actIn {
+		return []actIn{{K: "op", Op: &opIn{K: "identify", Info: &byInfo}}, {K: "op", Op: &opIn{K: "register", T: byTopic, C: byChan}},
+			{K: "op", Op: &opIn{K: "register", T: byTopic, C: byEph}},
+			{K: "vop", Op: &opIn{K: "identify", Slot: 1, Info: &nodePool[1]}},
+			{K: "vop", Op: &opIn{K: "register", Slot: 1, T: visTopic, C: visChan}},
+			{K: "vop", Op: &opIn{K: "register", Slot: 1, T: byTopic, C: byChan}},
+			post("/channel/create", sp(made), sp(madeC), nil)}
+	}
+	restore := func(t string) []actIn {
+		switch t {
+		case byTopic:
+			return []actIn{{K: "op", Op: &opIn{K: "register", T: byTopic, C: byChan}}, {K: "op", Op: &opIn{K: "register", T: byTopic, C: byEph}},
+				{K: "vop", Op: &opIn{K: "register", Slot: 1, T: byTopic, C: byChan}}}
+		case visTopic:
+			return []actIn{{K: "vop", Op: &opIn{K: "register", Slot: 1, T: visTopic, C: visChan}}}
+		case made:
+			return []actIn{post("/channel/create", sp(made), sp(madeC), nil)}
+		}
+		return nil
+	}
+	topics := []string{byTopic, visTopic, made, "new1"}
+	chans := []string{byChan, byEph, visChan, madeC, "newc"}
+
+	create := setup()
+	for _, t := range append(topics, "heph#ephemeral") {
+		create = append(create, post("/topic/create", sp(t), nil, nil))
+	}
+	for _, t := range topics {
+		for _, c := range chans {
+			create = append(create, post("/channel/create", sp(t), sp(c), nil))
+		}
+	}
+	// again, now that every name exists; then the connections are still served
+	create = append(create, post("/topic/create", sp(byTopic), sp(byChan), sp("bystander:4151")), post("/channel/create", sp(byTopic), sp(byChan), nil),
+		actIn{K: "op", Op: &opIn{K: "ping"}}, actIn{K: "vop", Op: &opIn{K: "unregister", Slot: 1, T: byTopic, C: byChan}},
+		post("/channel/create", sp(byTopic), sp(byChan), nil), post("/topic/create", sp(visTopic), nil, nil),
+		actIn{K: "vop", Op: &opIn{K: "disconnect", Slot: 1}}, post("/topic/create", sp(visTopic), nil, nil), post("/channel/create", sp(visTopic), sp(visChan), nil))
+
+	del := setup()
+	for _, t := range topics {
+		for _, c := range chans {
+			del = append(del, post("/channel/delete", sp(t), sp(c), nil))
+			del = append(del, restore(t)...)
+		}
+	}
+	for _, t := range topics {
+		del = append(del, post("/topic/delete", sp(t), nil, nil))
+		del = append(del, restore(t)...)
+	}
+	del = append(del, actIn{K: "op", Op: &opIn{K: "ping"}}, actIn{K: "vop", Op: &opIn{K: "ping", Slot: 1}})
+
+	tomb := setup()
+	for _, t := range topics {
+		for _, nd := range []string{"x:1", "", "h2:4151", "bystander:4151", "bystander:4152", "BYSTANDER:4151", "bystander"} {
+			tomb = append(tomb, post("/topic/tombstone", sp(t), nil, sp(nd)))
+		}
+	}
+	tomb = append(tomb,
+		post("/topic/tombstone", sp(byTopic), sp(byChan), sp("bystander:4151")), // marked already
+		actIn{K: "op", Op: &opIn{K: "register", T: byTopic, C: byChan}},         // does not clear the mark
+		actIn{K: "vop", Op: &opIn{K: "unregister", Slot: 1, T: byTopic}},        // this does (the entry goes)
+		actIn{K: "vop", Op: &opIn{K: "register", Slot: 1, T: byTopic, C: byChan}},
+		post("/topic/create", sp(byTopic), nil, nil), post("/channel/create", sp(byTopic), sp(byChan), nil), // marks survive a create
+		post("/topic/tombstone", sp(byTopic), nil, sp("h2:4151")),
+		post("/channel/delete", sp(byTopic), sp(byChan), nil), // the topic's marks survive a channel deletion
+		post("/topic/delete", sp(byTopic), nil, nil))
+	tomb = append(tomb, restore(byTopic)...)
+	tomb = append(tomb, post("/topic/tombstone", sp(byTopic), nil, sp("bystander:4151")), actIn{K: "op", Op: &opIn{K: "ping"}})
+
+	return []sessIn{{Profile: "hostile", Name: "fixed-admin-create", Acts: create}, {Profile: "hostile", Name: "fixed-admin-delete", Acts: del},
+		{Profile: "hostile", Name: "fixed-admin-tombstone", Acts: tomb}}
 }
 
 func connAct(st streamB) actIn {
@@ -749,7 +847,7 @@ func readAllFrames(c net.Conn) []string {
 	}
 }
 
-func emptyView(n *namer) string { return "(imkView None [] [] [])" }
+func emptyView(n *namer) string { return "(imkView None [] [] [] [])" }
 
 func runSession(s sessIn) lib.Case {
 	d := startDaemon()
@@ -783,9 +881,32 @@ func runSession(s sessIn) lib.Case {
 	var acts []string
 	tagc := map[string]int{}
 	dead := false
+	var lastDebug []debugObs
+	var lastTopics []string
+	topicState := func(t *string) string {
+		switch {
+		case t == nil:
+			return "absent-arg"
+		case !isValidName(*t):
+			return "invalid-name"
+		}
+		for _, e := range lastDebug {
+			if e.Cat == "topic" && e.Key == *t {
+				return "has-producers"
+			}
+		}
+		for _, x := range lastTopics {
+			if x == *t {
+				return "key-without-producers"
+			}
+		}
+		return "unknown-topic"
+	}
 	view := func() string {
 		lk := hc.lookup(byTopic, pm)
-		return fmt.Sprintf("(imkView %s %s %s %s)", n.coqLookup(lk), n.names(hc.topics()), n.names(hc.channels("*")), n.coqDebug(hc.debug(pm)))
+		dbg := hc.debug(pm)
+		lastDebug, lastTopics = dbg, hc.topics()
+		return fmt.Sprintf("(imkView %s %s %s %s %s)", n.coqLookup(lk), n.names(lastTopics), n.names(hc.channels("*")), n.coqDebug(dbg), n.coqNodes(dbg))
 	}
 	for _, a := range s.Acts {
 		var action, result, expect string
@@ -947,6 +1068,9 @@ func runSession(s sessIn) lib.Case {
 			result = fmt.Sprintf("(RHttp %d)", st)
 			tagc["http-route="+a.Path]++
 			tagc[fmt.Sprintf("http-status=%s:%d", a.Method, st)]++
+			if a.Method == "POST" && a.RawQ == "" && adminRoutes[a.Path] {
+				tagc[fmt.Sprintf("admin=%s:topic-%s:%d", a.Path, topicState(a.QT), st)]++
+			}
 		default:
 			lib.Fatalf("unknown action kind %q", a.K)
 		}
